@@ -152,9 +152,9 @@ Itemize(S, p, args, closed) ==
                  THEN <<Item("pos", 0, t, <<>>)>> \o Itemize(S, p, r, closed)
             ELSE unk
 
-\* The outcome of struct S (at level lvl) on args under policy p: the set of errors of all
-\* offending items (any of them may be the one reported - the property does not order them),
-\* else MissingRequired, else the one value.
+\* The outcome of struct S (at level lvl) on args under policy p: the errors of all offending
+\* items and of a missing required field / command (any of them may be the one reported - the
+\* property does not order them), else the one value.
 RECURSIVE Det(_, _, _, _)
 Det(S, p, lvl, args) ==
     LET items == Itemize(S, p, args, FALSE)
@@ -207,12 +207,41 @@ Det(S, p, lvl, args) ==
             ELSE LET j == IF p.dup = "first" THEN SubOcc[1] ELSE SubOcc[Len(SubOcc)]
                  IN <<[tag |-> items[j].i, v |-> (CHOOSE o \in InnerOf(j) : o.ok).v]>>
         Fs == IF NF(S) = 0 THEN <<>> ELSE [i \in 1..NF(S) |-> FieldVal(i)]
-    IN IF Errs # {} THEN {ErrOut(e[1], e[2]) : e \in Errs}
-       ELSE IF Missing THEN {ErrOut("MissingRequired", lvl)}
+    IN IF Errs # {} \/ Missing
+       THEN {ErrOut(e[1], e[2]) : e \in Errs} \cup (IF Missing THEN {ErrOut("MissingRequired", lvl)} ELSE {})
        ELSE {OkOut([f |-> Fs, sc |-> SubVal])}
 
-\* Parse(shape, args) as the set of admissible outcomes
-Admissible(S, args) == UNION {Det(S, p, <<>>, args) : p \in Policies(S)}
+\* Parse(shape, args) as the set of admissible outcomes: the definition
+AdmissibleFull(S, args) == UNION {Det(S, p, <<>>, args) : p \in Policies(S)}
+
+\* The same set, computed without evaluating policies that cannot matter: GrayDims = the
+\* undocumented points the line actually touches, seen under the base policy (the other
+\* policies only turn items into `unknown`, they never create a new duplicate, dashed
+\* positional or token after a unit command).  CliGen checks Admissible = AdmissibleFull.
+P0 == [dup |-> "last", dashpos |-> "value", afterunit |-> "continue"]
+RECURSIVE GrayDims(_, _)
+GrayDims(S, args) ==
+    LET items == Itemize(S, P0, args, FALSE)
+        n     == Len(items)
+        pidx  == PosIdx(S)
+        PosOrd(j) == Cardinality({k \in 1..j : items[k].k = "pos"})
+        Fld(j) == IF items[j].k = "pos" THEN (IF PosOrd(j) <= Len(pidx) THEN pidx[PosOrd(j)] ELSE 0)
+                  ELSE IF items[j].k \in {"flag", "val"} THEN items[j].i ELSE 0
+        dup == \/ \E j, j2 \in 1..n : j2 < j /\ items[j].k = "sub" /\ items[j2].k = "sub"
+               \/ \E j, j2 \in 1..n : /\ j2 < j /\ Fld(j) # 0 /\ Fld(j2) = Fld(j)
+                                       /\ S.fields[Fld(j)].pkg # "repeated"
+        dash == \E j \in 1..n : items[j].k = "pos" /\ Dashed(items[j].a)
+        unit == \E j \in 1..n : j < n /\ items[j].k = "sub" /\ SubOf(S).tags[items[j].i].inner = <<>>
+        inner == IF n > 0 /\ items[n].k = "sub" /\ SubOf(S).tags[items[n].i].inner # <<>>
+                 THEN GrayDims(SubOf(S).tags[items[n].i].inner[1], items[n].r) ELSE {}
+    IN (IF dup THEN {"dup"} ELSE {}) \cup (IF dash THEN {"dashpos"} ELSE {})
+       \cup (IF unit THEN {"afterunit"} ELSE {}) \cup inner
+Admissible(S, args) ==
+    LET g == GrayDims(S, args)
+    IN UNION {Det(S, p, <<>>, args) :
+                p \in [dup : IF "dup" \in g THEN {"first", "last", "reject"} ELSE {"last"},
+                       dashpos : IF "dashpos" \in g THEN {"value", "reject"} ELSE {"value"},
+                       afterunit : IF "afterunit" \in g THEN {"continue", "reject"} ELSE {"continue"}]}
 
 \* does the definition accept an observed outcome?  out = [r \in {"ok","err","panic"}, v, kind, lvl]
 \* observed kinds "Overflow" (the 128-byte cause buffer's fallback text) and "Other" (a cause
@@ -284,15 +313,15 @@ Render(S, tv, ord) ==
 \*         SHORT | LONG => { let Some(next_arg) = args.next() else { return Err("Expected argument
 \*                           following ..") };                                   -- ArmOptionNoValue
 \*                           <field> = Some(conv(next_arg)?) | <field>.push(conv(next_arg)?) }
-\*                                                                               -- ArmOptionValue
+\*                                                                               -- ArmOptionValue / ArmOptionBadValue
 \*         b"-h\0" | b"--help\0" => return Err(cause "")                         -- ArmHelp
 \*         no_match => with a subcommand:  subcommand_parse(next, args)? -> Some(sc) | Err(Unrecognized)
 \*                                                     -- TailUnit / TailEnter / TailNoMatch
 \*                     else: if <pos1>.is_none() { <pos1> = Some(conv(next)?) } else if .. else
-\*                           Err(Unrecognized)                                   -- PosAssign / PosNone
+\*                           Err(Unrecognized)                                   -- PosAssign / PosBadValue / PosNone
 \*     } }
 \*     Ok(Self { <field>: <field> | if let Some(v) = <field> { v } else { return Err(Required ..) }, .. })
-\*                                                                               -- Finish
+\*                                                            -- FinishMissing / FinishOk / FinishReturn
 \* `subcommand_parse` (subcommand.rs) matches the kebab-case tag; a struct tag calls the inner
 \* struct's arg_parse on the SAME iterator (it runs until the arguments are exhausted), a unit
 \* tag returns at once and the outer loop goes on.
@@ -315,8 +344,8 @@ MStep(Top, stk, rem) ==
     LET d  == Len(stk)
         F  == stk[d]
         S  == StructAt(Top, F.lvl)
-        Fail(k) == [stk |-> stk, rem |-> <<>>, res |-> ErrOut(k, F.lvl)]
-        Go(F2, rem2) == [stk |-> [stk EXCEPT ![d] = F2], rem |-> rem2, res |-> Running]
+        Fail(arm, k) == [arm |-> arm, stk |-> stk, rem |-> <<>>, res |-> ErrOut(k, F.lvl)]
+        Go(arm, F2, rem2) == [arm |-> arm, stk |-> [stk EXCEPT ![d] = F2], rem |-> rem2, res |-> Running]
     IN
     IF rem # <<>> THEN
         LET t  == Head(rem)
@@ -324,32 +353,36 @@ MStep(Top, stk, rem) ==
             ti == TagOf(S, t)
         IN IF fi # 0 THEN
                LET f == S.fields[fi] IN
-               IF f.kind = "flag" THEN Go([F EXCEPT !.f[fi] = TRUE], Tail(rem))                \* ArmFlag
-               ELSE IF Len(rem) = 1 THEN Fail("MissingValue")                                  \* ArmOptionNoValue
-               ELSE LET c == ConvImpl(f, rem[2]) IN                                            \* ArmOptionValue
-                    IF c.ok THEN Go([F EXCEPT !.f[fi] = Store(f, F.f[fi], c.v)], Tail(Tail(rem)))
-                    ELSE Fail(CHOOSE k \in c.kinds : TRUE)
-           ELSE IF t \in HelpToks THEN Fail("Help")                                            \* ArmHelp
+               IF f.kind = "flag" THEN Go("ArmFlag", [F EXCEPT !.f[fi] = TRUE], Tail(rem))
+               ELSE IF Len(rem) = 1 THEN Fail("ArmOptionNoValue", "MissingValue")
+               ELSE LET c == ConvImpl(f, rem[2]) IN
+                    IF c.ok THEN Go("ArmOptionValue", [F EXCEPT !.f[fi] = Store(f, F.f[fi], c.v)], Tail(Tail(rem)))
+                    ELSE Fail("ArmOptionBadValue", CHOOSE k \in c.kinds : TRUE)
+           ELSE IF t \in HelpToks THEN Fail("ArmHelp", "Help")
            ELSE IF HasSub(S) THEN
-               IF ti = 0 THEN Fail("Unrecognized")                                             \* TailNoMatch
+               IF ti = 0 THEN Fail("TailNoMatch", "Unrecognized")
                ELSE IF SubOf(S).tags[ti].inner = <<>>
-                    THEN Go([F EXCEPT !.sc = <<[tag |-> ti, v |-> NoVal]>>], Tail(rem))        \* TailUnit
-                    ELSE [stk |-> Append(stk, Frame0(SubOf(S).tags[ti].inner[1], Append(F.lvl, ti))),
-                          rem |-> Tail(rem), res |-> Running]                                  \* TailEnter
+                    THEN Go("TailUnit", [F EXCEPT !.sc = <<[tag |-> ti, v |-> NoVal]>>], Tail(rem))
+                    ELSE [arm |-> "TailEnter",
+                          stk |-> Append(stk, Frame0(SubOf(S).tags[ti].inner[1], Append(F.lvl, ti))),
+                          rem |-> Tail(rem), res |-> Running]
            ELSE LET open == {i \in 1..NF(S) : S.fields[i].kind = "positional" /\ F.f[i] = <<>>} IN
-                IF open = {} THEN Fail("Unrecognized")                                         \* PosNone
-                ELSE LET i == MinOf(open)  c == ConvImpl(S.fields[i], t) IN                    \* PosAssign
-                     IF c.ok THEN Go([F EXCEPT !.f[i] = <<c.v>>], Tail(rem))
-                     ELSE Fail(CHOOSE k \in c.kinds : TRUE)
-    ELSE                                                                                       \* Finish
+                IF open = {} THEN Fail("PosNone", "Unrecognized")
+                ELSE LET i == MinOf(open)  c == ConvImpl(S.fields[i], t) IN
+                     IF c.ok THEN Go("PosAssign", [F EXCEPT !.f[i] = <<c.v>>], Tail(rem))
+                     ELSE Fail("PosBadValue", CHOOSE k \in c.kinds : TRUE)
+    ELSE
         LET missing == \/ \E i \in 1..NF(S) : /\ S.fields[i].pkg = "required"
                                               /\ S.fields[i].kind # "flag" /\ F.f[i] = <<>>
                        \/ HasSub(S) /\ ~SubOf(S).opt /\ F.sc = <<>>
             val == [f |-> F.f, sc |-> F.sc]
-        IN IF missing THEN Fail("MissingRequired")
-           ELSE IF d = 1 THEN [stk |-> stk, rem |-> <<>>, res |-> OkOut(val)]
-           ELSE [stk |-> [SubSeq(stk, 1, d - 1) EXCEPT ![d - 1].sc = <<[tag |-> F.lvl[Len(F.lvl)], v |-> val]>>],
+        IN IF missing THEN Fail("FinishMissing", "MissingRequired")
+           ELSE IF d = 1 THEN [arm |-> "FinishOk", stk |-> stk, rem |-> <<>>, res |-> OkOut(val)]
+           ELSE [arm |-> "FinishReturn",
+                 stk |-> [SubSeq(stk, 1, d - 1) EXCEPT ![d - 1].sc = <<[tag |-> F.lvl[Len(F.lvl)], v |-> val]>>],
                  rem |-> <<>>, res |-> Running]
+Arms == {"ArmFlag", "ArmOptionNoValue", "ArmOptionValue", "ArmOptionBadValue", "ArmHelp", "TailNoMatch",
+         "TailUnit", "TailEnter", "PosNone", "PosAssign", "PosBadValue", "FinishMissing", "FinishOk", "FinishReturn"}
 
 \* ================================================================== cause buffer
 \* tiny-std/src/unix/cli.rs: ArgParseCauseBuffer is a 128-byte array plus len; write_str fails
